@@ -13,6 +13,7 @@ import (
 	"github.com/filecoin-project/go-f3/verifharness/vcrypto"
 	"github.com/filecoin-project/go-f3/verifharness/vds"
 	"github.com/filecoin-project/go-f3/verifharness/vev"
+	"github.com/filecoin-project/go-f3/verifharness/vgen"
 	"github.com/filecoin-project/go-f3/verifharness/vref"
 	"pgregory.net/rapid"
 )
@@ -214,5 +215,65 @@ func TestC19CertChain(t *testing.T) {
 		beyond := uint64(n) >= w.m.CommitteeLookback
 		vev.Case(c19, vev.Digest("cc", fmt.Sprint(describeWorld(w)), n), beyond && tableChanged, "certchain", fmt.Sprintf("beyond-bootstrap-window:%v", beyond), fmt.Sprintf("table-changed:%v", tableChanged))
 		vev.Sample(c19, func() any { d := describeWorld(w); d["kind"] = "certchain"; d["generated"] = n; return d })
+	})
+}
+
+// TestC19CertChainAccepts: what certchain accepts. A chain built by the harness under the node's
+// committee rule (C15's builder: committee of instance i = table at the head finalized
+// look-back instances earlier, delta and supplemental data to match, minimal signer sets) must
+// be accepted by CertChain.Validate; the same chain with one certificate signed by the
+// committee of another instance (a different table) must be rejected.
+func TestC19CertChainAccepts(t *testing.T) {
+	rapid.Check(t, func(t *rapid.T) {
+		ctx := context.Background()
+		k := rapid.IntRange(1, 8).Draw(t, "ncerts")
+		w := genWorld(t, false, 60)
+		w.buildCerts(t, k)
+		mkcc := func() *certchain.CertChain {
+			cc, err := certchain.New(certchain.WithEC(w.ec), certchain.WithManifest(w.m), certchain.WithSignVerifier(vcrypto.Scheme{}), certchain.WithSeed(1))
+			if err != nil {
+				t.Fatalf("HARNESS: certchain.New: %v", err)
+			}
+			return cc
+		}
+		if err := mkcc().Validate(ctx, w.certs); err != nil {
+			vev.Fail(t, c19, "C19/certchain/rejects-node-rule-chain", "CertChain.Validate rejects a chain of %d certificates built under the node's committee rule (look-back %d, initial instance %d): %v", k, w.m.CommitteeLookback, w.m.InitialInstance, err)
+		}
+		// one certificate signed by another instance's committee
+		rejected := "n/a"
+		j := rapid.IntRange(0, k-1).Draw(t, "resign")
+		inst := w.m.InitialInstance + uint64(j)
+		right := w.committeeTS(inst).Table
+		var wrong gpbft.PowerEntries
+		for d := uint64(1); d <= uint64(k)+w.m.CommitteeLookback && wrong == nil; d++ {
+			if cts := w.committeeTS(inst + d); cts != nil && !vref.EntriesEq(vref.Canonical(cts.Table), vref.Canonical(right)) {
+				wrong = cts.Table
+			}
+		}
+		if wrong != nil {
+			forged := vgen.CloneCerts(w.certs)
+			vgen.SignCert(w.m.NetworkName, wrong, forged[j], vgen.SignerSet(t, "wsig", wrong, "minimal"))
+			// only a variant that is really invalid under the right committee counts (tables that
+			// differ in a power or in members outside the signer set give the same signatures)
+			if _, why := vref.CertValidAgainst(w.m.NetworkName, vref.Canonical(right), forged[j]); why != "" {
+				// (a signer index beyond the committee makes CertChain.Validate panic instead of
+				// returning an error; for this tool that counts as a rejection)
+				validate := func() (err error) {
+					defer func() {
+						if r := recover(); r != nil {
+							err = fmt.Errorf("panic: %v", r)
+						}
+					}()
+					return mkcc().Validate(ctx, forged)
+				}
+				if err := validate(); err == nil {
+					vev.Fail(t, c19, "C19/certchain/accepts-wrong-committee", "CertChain.Validate accepts a chain whose certificate %d is signed by the committee of a later instance and is invalid under its own (%s)", inst, why)
+				}
+				rejected = "yes"
+			} else {
+				rejected = "variant-still-valid"
+			}
+		}
+		vev.Case(c19, vev.Digest("cc-accepts", fmt.Sprint(describeWorld(w)), k, j), wrong != nil, "certchain-accepts", "certchain-wrong-committee-variant:"+rejected)
 	})
 }
